@@ -28,6 +28,8 @@ def build(kind, params, Nproc):
     from EasyFEA import Mesher, ElemType
     from EasyFEA.Geoms import Domain, Point
 
+    if gmsh.isInitialized():   # a previous build that raised leaves gmsh (and its options) alive
+        gmsh.finalize()
     mesher = Mesher(openGmsh=False, verbosity=False)
     if kind == "2d":
         et = getattr(ElemType, params["elemType"])
@@ -103,6 +105,9 @@ def run_case(c):
     kind, params, Nproc = c["kind"], c["params"], c["Nproc"]
     with contextlib.redirect_stdout(io.StringIO()):
         ref = build(kind, params, 1)[0]
+    if Nproc > ref.Ne:     # the property quantifies over Nproc <= number of elements
+        return {"id": c["id"], "skipped": "Nproc %d > Ne %d" % (Nproc, ref.Ne)}
+    with contextlib.redirect_stdout(io.StringIO()):
         parts = build(kind, params, Nproc)
     res = {"id": c["id"], "kind": kind, "params": params, "Nproc": Nproc}
     dim = ref.dim
@@ -131,6 +136,7 @@ def run_case(c):
     res["Nn"] = int(ref.Nn)
     res["Ne_main"] = int(ref.Ne)
     outs = []
+    not_canonical = []
     coords_ok = True
     rows_ok = True
     refcoord = ref.coord
@@ -147,11 +153,18 @@ def run_case(c):
                 rows_ok = False
             if gp.Nn and not np.array_equal(p.coord[gp.nodes], refcoord[gp.nodes]):
                 coords_ok = False
+            for name, arr in (("elements", el), ("ghostElements", gh), ("nodes", nd), ("ghostNodes", gn), ("_globalElements", ge)):
+                a = np.asarray(arr)
+                if a.size > 1 and not np.all(np.diff(a) > 0):
+                    not_canonical.append("part %d group %s: %s is not strictly increasing" % (r, et.name, name))
+            if set(ilist(gn)) != set(ilist(gp.connect)) - set(ilist(nd)) or set(ilist(ge)) != set(ilist(el)) | set(ilist(gh)):
+                not_canonical.append("part %d group %s: ghostNodes != nodes(connect) - nodes, or _globalElements != elements U ghostElements" % (r, et.name))
             po.append({"elements": ilist(el), "ghosts": ilist(gh), "nodes": ilist(nd),
                        "ghostNodes": ilist(gn), "global": ilist(ge)})
         outs.append(po)
     res["parts"] = outs
     res["rows_ok"] = rows_ok
+    res["not_canonical"] = not_canonical[:10]
     res["coords_ok"] = coords_ok and all(p.Nn == ref.Nn for p in parts)
     if Nproc > 1:
         owned = [ilist(p._Get_mpi_owned_nodes()) for p in parts]
